@@ -3,7 +3,7 @@ FAMILY = "multi"
 
 STREAMS = {
     "route": {"quick": 4000, "thorough": 150000, "trivial": ["bad-op", "noprod", "nodb"]},
-    "crash": {"quick": 2500, "thorough": 120000, "mode": "judge", "keep_prefix": 1, "trivial": ["bad-op", "nomode"]},
+    "crash": {"quick": 2500, "thorough": 120000, "mode": "judge", "keep_prefix": 1, "trivial": ["bad-op", "nomode", "nobatch"]},
 }
 
 PROPS = {
@@ -40,6 +40,10 @@ PROPS = {
                  "the discipline for all map-order oracles (pool_reach, flagged_reach), Reach is prefix closed. Negative witnesses (decide): the "
                  "two pre-fix orderings of D7 and the residual all-dropped case of the intermediate repair (6f78193 without 3bb25a4). Prefix bytes, mark layout, all "
                  "CheckDBsSynced conditions and the flagged-store dirty test are regenerated from the sources. "
+                 "Explicit batch objects need no extra model op: filling a batch is not durable, so a batch filled before a Flush and written after it "
+                 "is a FlagOp.write (pool: a run of puts) at the time of Write - already quantified over by the theorem; the stream checks that "
+                 "the real code indeed emits nothing durable on batch Put/Delete and marks dirty on every Write (also for batches of only "
+                 "empty values / only deletes; the harness batch ValueSize counts value bytes only, like leveldb/pebble). "
                  "Correspondence (judge): real SyncedPool/flaggedproducer over a journaling memory backend; model journal = real journal op "
                  "by op (oracles read off the real journal and checked to be permutations); for EVERY prefix the real Initialize over the "
                  "rebuilt DBs is compared with the model and P_C25 is evaluated on the real answer.",
